@@ -16,14 +16,26 @@ import rs2lean
 SLICE = ['GetRange', 'GetRangeFrom', 'GetRangeTo', 'GetRangeFull', 'GetRangeIncl', 'GetRangeToIncl', 'GetBounds']
 TOKEN = ['FromEncoded', 'TokenNew', 'Decoded']
 INDEX = ['ForLen', 'ForLenIncl', 'ForLenUnchecked']
+SPLITS = ['SplitFront', 'SplitAt', 'SplitBack', 'Parent']
+RELS = ['IsRoot', 'SplitAt', 'StartsWith', 'StripPrefix', 'EndsWith', 'StripSuffix', 'Intersection']
+ACCESS = ['IsRoot', 'Count', 'Back', 'Front']
+POINTER = ['IsRoot', 'Count', 'Back', 'Front', 'SplitFront', 'SplitAt', 'SplitBack', 'Parent', 'StripSuffix', 'StripPrefix',
+           'EndsWith', 'StartsWith', 'Intersection']
+def _u(*ls):
+    out = []
+    for l in ls:
+        for x in l:
+            if x not in out: out.append(x)
+    return out
 # which regenerated functions each property rests on, and the transported theorem modules
 PROP_FUNCS = {
-    'C01': ['ValidateBytes'] + TOKEN + SLICE,
+    'C01': _u(['ValidateBytes'], TOKEN, SLICE, POINTER),
     'C02': ['ValidateBytes'], 'C14': ['ValidateBytes'],
-    'C03': TOKEN, 'C12': SLICE, 'C16': INDEX,
-    'C19': TOKEN + SLICE,
+    'C03': TOKEN, 'C04': ACCESS, 'C12': _u(SLICE, SPLITS), 'C13': RELS, 'C16': INDEX,
+    'C19': _u(TOKEN, SLICE, SPLITS, RELS, ACCESS),
 }
-TRANSPORT_MEMBERS = {'TransportValidate': ['ValidateBytes'], 'TransportToken': TOKEN, 'TransportSlice': SLICE, 'TransportIndex': INDEX}
+TRANSPORT_MEMBERS = {'TransportValidate': ['ValidateBytes'], 'TransportToken': TOKEN, 'TransportSlice': SLICE, 'TransportIndex': INDEX,
+                     'TransportPointer': POINTER}
 TIE_THEOREMS = {
     'ValidateBytes': ['Jp.Tie.validate_bytes_eq', 'Jp.Tie.validate_bytes_nil'], 'FromEncoded': ['Jp.Tie.from_encoded_eq'],
     'TokenNew': ['Jp.Tie.new_eq'], 'Decoded': ['Jp.Tie.decoded_eq'], 'ForLen': ['Jp.Tie.for_len_eq'],
@@ -31,6 +43,11 @@ TIE_THEOREMS = {
     'GetRange': ['Jp.Tie.range_eq'], 'GetRangeFrom': ['Jp.Tie.range_from_eq'], 'GetRangeTo': ['Jp.Tie.range_to_eq'],
     'GetRangeFull': ['Jp.Tie.range_full_eq'], 'GetRangeIncl': ['Jp.Tie.range_incl_eq'],
     'GetRangeToIncl': ['Jp.Tie.range_to_incl_eq'], 'GetBounds': ['Jp.Tie.bounds_eq'],
+    'IsRoot': ['Jp.Tie.is_root_eq'], 'Count': ['Jp.Tie.count_eq'], 'Back': ['Jp.Tie.back_eq'], 'Front': ['Jp.Tie.front_eq'],
+    'SplitFront': ['Jp.Tie.split_front_eq'], 'SplitAt': ['Jp.Tie.split_at_eq'], 'SplitBack': ['Jp.Tie.split_back_eq'],
+    'Parent': ['Jp.Tie.parent_eq'], 'StripSuffix': ['Jp.Tie.strip_suffix_eq'], 'StripPrefix': ['Jp.Tie.strip_prefix_eq'],
+    'EndsWith': ['Jp.Tie.ends_with_eq'], 'StartsWith': ['Jp.Tie.starts_with_eq'],
+    'Intersection': ['Jp.Tie.intersection_eq', 'Jp.Tie.intersection_loop_eq'],
 }
 TRANSPORT_THEOREMS = {
     'TransportValidate': ['gen_validate_ok_iff', 'gen_validate_no_panic', 'gen_no_leading_slash_iff'],
@@ -39,6 +56,8 @@ TRANSPORT_THEOREMS = {
                        'gen_new_fresh_iff', 'gen_decoded_fresh_iff'],
     'TransportSlice': ['gen_bounds_spec', 'gen_range_spec', 'gen_no_panic', 'gen_excluded_max_none'],
     'TransportIndex': ['gen_for_len_exact', 'gen_for_len_incl_exact', 'gen_for_len_unchecked_exact'],
+    'TransportPointer': ['gen_starts_with_iff', 'gen_strip_prefix_iff', 'gen_strip_suffix_iff', 'gen_ends_with_iff',
+                         'gen_intersection_lcp', 'gen_intersection_comm', 'gen_split_at_iff', 'gen_split_at_concat'],
 }
 ALLOWED_AXIOMS = {'propext', 'Classical.choice', 'Quot.sound'}
 
@@ -56,9 +75,8 @@ def first_error(out, module):
 def run(prop, repo, lean_dir, log=lambda s: None):
     ids = PROP_FUNCS.get(prop)
     if not ids: return dict(functions={}, escalate=False, all_proved=True, applicable=False)
-    need = set(ids)
-    if 'GetBounds' in need: need |= set(SLICE)
-    st = rs2lean.run(repo, os.path.join(lean_dir, 'Jp', 'Gen', 'Rs'), only=need)
+    st = rs2lean.run(repo, os.path.join(lean_dir, 'Jp', 'Gen', 'Rs'))          # all functions: cheap, and transports need siblings
+    deps = {sp['id']: list(sp.get('imports', [])) for sp in rs2lean.FUNCS}
     res = {}
     for i in ids:
         s = st[i]
@@ -84,16 +102,17 @@ def run(prop, repo, lean_dir, log=lambda s: None):
                     res[i]['status'] = ('untranslatable: generated definition does not elaborate: ' if gen_broken else 'tie-broken: ') + \
                         first_error(out1, f"Jp.Gen.Rs.{i}" if gen_broken else m)
     proved = [i for i in ids if res[i].get('status') == 'proved']
-    if 'GetBounds' in res and res['GetBounds'].get('status') != 'proved' and \
-       any(res.get(i, {}).get('status') != 'proved' for i in SLICE if i != 'GetBounds' and i in res):
-        res['GetBounds']['depends_broken'] = True      # it only dispatches to its siblings; their change is the cause
+    for i in ids:
+        if res[i].get('status') != 'proved' and any(st[d]['status'] != 'translated' or res.get(d, {}).get('status', 'proved') != 'proved'
+                                                    for d in deps.get(i, [])):
+            res[i]['depends_broken'] = True      # it calls regenerated siblings; their change is the cause
     # axiom audit of the tie theorems + transported theorems (only for what built)
     audit_names = []
     for i in proved: audit_names += TIE_THEOREMS[i]
-    tmods = [tm for tm, members in TRANSPORT_MEMBERS.items() if all(m in ids for m in members)]
+    tmods = [tm for tm, members in TRANSPORT_MEMBERS.items() if any(m in ids for m in members)]
     tbuilt = []
     for tm in tmods:
-        if not all(res[m].get('status') == 'proved' for m in TRANSPORT_MEMBERS[tm]): continue
+        if not all(st[m]['status'] == 'translated' and res.get(m, {}).get('status', 'proved') == 'proved' for m in TRANSPORT_MEMBERS[tm]): continue
         rc, out = sh(['lake', 'build', f"Jp.Tie.{tm}"], lean_dir)
         if rc == 0:
             tbuilt.append(tm); audit_names += ['Jp.Tie.' + n for n in TRANSPORT_THEOREMS[tm]]
